@@ -255,6 +255,33 @@ def run(chk):
         if got.get(0) != ('raise', 'TimeoutError') or got.get(1, ('?',))[0] != 'ok' or got.get(2, ('?',))[0] != 'ok':
             chk.violation('timeout_interrupts_only_that_task', {'scenario': sc}, {'outcomes': got}, 'the overrunning task fails with TimeoutError, the tasks behind it complete',
                           input_class='replacement_timeout')
+    # "independent of how many workers are blocked", apply half: every worker of a larger pool overruns at the same moment; each
+    # task's TimeoutError (its error callback) arrives within its own limit + one scan period + slack, the last one like the first
+    many = []
+    for _ in range(16 if chk.tier == 'quick' else 200):
+        nj = rng.choice([6, 8, 10, 12])
+        tt = rng.choice([0.3, 0.5])
+        many.append({'seed': rng.randint(0, 10 ** 6), 'pool': {'n_jobs': nj, 'start_method': rng.choice(['fork', 'fork', 'threading'])}, 't': tt,
+                     'ops': [{'op': 'apply_batch', 'tasks': [{'idx': i} for i in range(nj)], 'task_timeout': tt, 'get_timeout': 30,
+                              'dur': {'kind': 'map', 'map': {}, 'default': rng.choice([50.0, 600.0])}}]})
+    mo = run_scenarios(chk, 'every worker of a larger pool overruns an apply task at the same moment (DetSim)', many, {'C03'}, nontrivial=lambda sc, o: True,
+                       dist=lambda sc, o: {'n_jobs': sc['pool']['n_jobs'], 'start_method': sc['pool']['start_method']})
+    for sc, o in zip(many, mo):
+        if o.get('harness_error') or o.get('stuck') or not o.get('ops'):
+            continue
+        oo = o['ops'][0]
+        started = {c[5]: c[6] for c in o.get('calls', []) if c[0] == 0 and c[1] == 'task'}
+        failed = {c[1]: c[3] for c in oo.get('callbacks', []) if c[0] == 'ecb' and c[2] == 'TimeoutError'}
+        late = {i: round(failed[i] - started[i], 3) for i in failed if i in started and failed[i] - started[i] > sc['t'] + SCAN + 0.25}
+        missing = [a[0] for a in oo.get('apply', []) if (a[1], a[2]) != ('raise', 'TimeoutError')]
+        if sc['pool']['start_method'] == 'threading':
+            missing = []        # (a worker thread cannot be interrupted: its task is failed for the caller, the thread goes on)
+        if missing:
+            chk.violation('timeout_fires', {'scenario': sc}, {'tasks_without_TimeoutError': missing, 'outcomes': oo.get('apply')}, 'every overrunning apply task gets TimeoutError',
+                          input_class='timeout_fires_many')
+        elif late:
+            chk.violation('timeout_prompt', {'scenario': sc}, {'latency_virtual_s_by_task': late, 'bound': sc['t'] + SCAN + 0.25, 'workers_blocked': len(started)},
+                          'TimeoutError within timeout + scan period + slack for every task, independent of how many workers are blocked', input_class='timeout_prompt_many')
     ms = mixed_scenarios(rng, 80 if chk.tier == 'quick' else 1200)
     mobs = run_scenarios(chk, 'an apply task times out while a map-family call without timeouts runs on the same pool (DetSim)', ms, {'C01', 'C02'},
                          nontrivial=lambda sc, o: True, dist=lambda sc, o: {'map_kind': sc['ops'][1]['op'], 'n_jobs': sc['pool']['n_jobs']})
